@@ -18,6 +18,7 @@ from ..kit import trees as T
 from hypothesis import strategies as st
 
 from yowsup.structs import ProtocolEntity
+from yowsup.structs import ProtocolTreeNode
 from yowsup.layers.coder.encoder import WriteEncoder
 from yowsup.layers.coder.decoder import ReadDecoder
 from yowsup.layers.coder.tokendictionary import TokenDictionary
@@ -288,6 +289,18 @@ def codec_problem(node):
         frame = bytes(bytearray(WriteEncoder(_td).protocolTreeNodeToBytes(node)))
     except Exception as e:
         return ("not_encodable:%s" % type(e).__name__, "%r; offending: %s" % (e, find_bad_value(node)))
+    # a connection has one encoder for everything it sends: a stanza the codec refused earlier (the sender caught the error and went
+    # on) must not leave anything behind in it
+    used = WriteEncoder(_td)
+    try:
+        used.protocolTreeNodeToBytes(ProtocolTreeNode("receipt", {"id": "1415389947-15", "to": None}))
+    except Exception:
+        pass
+    try:
+        if bytes(bytearray(used.protocolTreeNodeToBytes(node))) != frame:
+            return ("frame_differs_after_the_encoder_refused_another_stanza", "fresh encoder: %d bytes" % len(frame))
+    except Exception as e:
+        return ("not_encodable_after_the_encoder_refused_another_stanza:%s" % type(e).__name__, repr(e)[:200])
     try:
         back = ReadDecoder(_td).getProtocolTreeNode(bytearray(frame))
     except Exception as e:
@@ -371,3 +384,4 @@ def plan(tier):
     }
 
 RULE += (' Also recv_edit: an entity serialised once and then edited through its own property setters serialises like an unserialised twin given the same edits; an empty status text.')
+RULE += (" Every sent stanza is also encoded by an encoder that refused another stanza before (as the connection's one encoder may have); the frame must be the same.")
